@@ -218,7 +218,7 @@ func runC16(w *worker) func(c c16Case) *Failure {
 		// "never modify" includes "not for a moment": while two goroutines size and encode the value,
 		// a third one reads it (a value nobody writes may be shared); every reader and every encoder
 		// must see what a call made alone sees
-		if hs := sha256.Sum256([]byte(a0)); hs[0]%2 == 0 {
+		if hs := sha256.Sum256([]byte(a0)); hs[0]%3 == 0 {
 			var wg sync.WaitGroup
 			var mu sync.Mutex
 			var cf *Failure
@@ -234,7 +234,7 @@ func runC16(w *worker) func(c c16Case) *Failure {
 				go func(g int) {
 					defer wg.Done()
 					buf := make([]byte, s)
-					for k := 0; k < 24; k++ {
+					for k := 0; k < 10; k++ {
 						if g == 2 {
 							v1 := b.Lift(src.Elem())
 							if m := core.EqualStruct(c.S, v1, v0, core.EqOpts{}, "$"); m != nil {
